@@ -54,6 +54,8 @@ pub fn run(out: &mut Out, seed: u64, tier: &str) {
     for zs in [vec![8usize, 6, 8], vec![1, 6, 7], vec![1, 6, 6, 1], vec![16, 6, 16], vec![9, 4, 9], vec![17, 80, 17]] {
         for _ in 0..(if tier == "thorough" { 120 } else { 25 }) { mols.push(linear_chain(&zs, rng.range(0.9, 1.1))); }
     }
+    let (mut n_files, mut n_files_tried) = (0usize, 0usize);
+    let mut n_far = 0usize;
     let (mut n, mut skipped, mut worst_e, mut worst_f, mut worst_t, mut worst_cov) = (0usize, 0usize, 0.0f64, 0.0f64, 0.0f64, 0.0f64);
     for m in mols.iter() {
         if m.n() > 24 || m.n() == 0 || m.min_distance() < 0.5 { continue; }
@@ -63,6 +65,43 @@ pub fn run(out: &mut Out, seed: u64, tier: &str) {
         let mm = moved(m, &r, t);
         let (mol, mol2) = match (catch(|| m.build()), catch(|| mm.build())) { (Some(a), Some(b)) => (a, b), _ => continue };
         let replay = format!("rotation {:?} translation {:?} of\n{}", r, t, m.xyz_text());
+        // "rigidly moving an input structure": every fourth pair is also constructed from files — the original as this harness writes
+        // numbers, the moved copy as another program would (scientific notation with either exponent letter, a sign, fixed point
+        // with 17 digits; all spellings that give back the same double) — and must be the molecule constructed in memory
+        if n_files_tried % 4 == 0 && m.n() <= 16 {
+            let spell = |v: f64, k: usize| -> String { match k % 4 { 0 => format!("{:E}", v), 1 => format!("{:e}", v), 2 => format!("{:+.17E}", v), _ => format!("{:?}", v) } };
+            let mut text = format!("{}\nmoved copy\n", mm.n());
+            for (a, (sy, p)) in mm.symbols().iter().zip(mm.xs.iter()).enumerate() { text += &format!("{} {} {} {}\n", sy, spell(p[0], a), spell(p[1], a + 1), spell(p[2], a + 2)); }
+            let path = format!("/var/tmp/optrs-verif-scratch/c03-{}.xyz", std::process::id());
+            let _ = std::fs::create_dir_all("/var/tmp/optrs-verif-scratch");
+            std::fs::write(&path, &text).unwrap();
+            let fm = catch(|| Molecule::from_xyz_file(&path));
+            let _ = std::fs::remove_file(&path);
+            match fm {
+                None => out.oracle_fail("the moved copy of an input structure could not be read from its xyz file", &format!("{}\nfile:\n{}", replay, text)),
+                Some(fm) => {
+                    let same_xyz = fm.coordinates.len() == mol2.coordinates.len() && fm.coordinates.iter().zip(mol2.coordinates.iter()).all(|(p, q)| p.x.to_bits() == q.x.to_bits() && p.y.to_bits() == q.y.to_bits() && p.z.to_bits() == q.z.to_bits());
+                    if !same_xyz { out.oracle_fail(&format!("the moved copy read from its xyz file has {} atoms / other coordinates than the {} written", fm.coordinates.len(), mm.n()), &format!("{}\nfile:\n{}", replay, text)); }
+                    else if canon_conn(&connectivity(&fm)) != canon_conn(&connectivity(&mol2)) { out.oracle_fail("the moved copy read from its xyz file has another connectivity than the same atoms constructed in memory", &format!("{}\nfile:\n{}", replay, text)); }
+                    n_files += 1;
+                }
+            }
+        }
+        n_files_tried += 1;
+        // far translations by exactly representable offsets (2^20 .. 2^29 A: doubles still resolve 2e-10 .. 1e-7 A there): the
+        // perceived connectivity is that of the structure at the origin
+        if n_files_tried % 5 == 0 && !on_a_threshold(m) {
+            let e = 20 + rng.below(10) as i32;
+            let off = 2f64.powi(e);
+            let tt = [off * *rng.pick(&[1.0, -1.0, 0.0]), off * *rng.pick(&[1.0, -1.0]), off * *rng.pick(&[0.5, 0.0, -1.0])];
+            let far = Mol { name: m.name.clone(), zs: m.zs.clone(), xs: m.xs.iter().map(|p| [p[0] + tt[0], p[1] + tt[1], p[2] + tt[2]]).collect() };
+            if let Some(fm) = catch(|| far.build()) {
+                if canon_conn(&connectivity(&mol)) != canon_conn(&connectivity(&fm)) {
+                    out.oracle_fail(&format!("perceived connectivity changed under a translation by {:?} A", tt), &format!("translation {:?} of\n{}", tt, m.xyz_text()));
+                }
+                n_far += 1;
+            }
+        }
         // perception and construction from moved coordinates
         if on_a_threshold(m) { skipped += 1; }
         else {
@@ -173,6 +212,8 @@ pub fn run(out: &mut Out, seed: u64, tier: &str) {
     }
     out.stat("exact_tie_structures_under_exact_motions", n_ties);
     out.case("rigid summary", "-");
+    out.stat("moved_copies_constructed_from_files", n_files);
+    out.stat("far_translations_2^20_to_2^29", n_far);
     out.stat("force_fields_checked", n);
     out.stat("perception_checks_skipped_on_threshold", skipped);
     out.stat("worst_energy_change_rel", format!("{:e}", worst_e));
